@@ -98,8 +98,9 @@ def make_instance(rng, vt, k, small=False, analytic=False):
     mixed = vt == "sympy" and (k % 2 == 1 or analytic)
     for _ in range(200):
         c = gen.random_case(rng, hermitian=herm, fmt=vt, max_blocks=3, max_size=2 if small else 3,
-                            max_params=3 if mixed else 2, N=3, allow_fully=True, allow_mask=True)
-        if not mixed or c["nparam"] >= 2:
+                            max_params=3 if mixed else 2, N=3, allow_fully=True, allow_mask=True,
+                            cplx=(False if (mixed and small) else None))
+        if not mixed or (c["nparam"] >= 2 and (not small or len(c["sub"]) <= 3)):
             break
     c = copy.deepcopy(c)
     dim = len(c["sub"])
@@ -108,7 +109,7 @@ def make_instance(rng, vt, k, small=False, analytic=False):
     if mixed:
         pool = MIXED[c["nparam"]]
         for o in rng.sample(pool, rng.randint(2, len(pool))):
-            M = gen.rand_matrix(rng, dim, herm=herm, cplx=rng.random() < 0.5, dyadic=False, density=1.0)
+            M = gen.rand_matrix(rng, dim, herm=herm, cplx=(not small) and rng.random() < 0.5, dyadic=False, density=1.0)
             if gq.is_zero(M):
                 M[0][0] = G(1)
             c["H"][gen.key(o)] = gq.enc(M)
@@ -118,6 +119,8 @@ def make_instance(rng, vt, k, small=False, analytic=False):
             Md = gq.dec(M)
             Md[0][0] = G(1)
             c["H"][key] = gq.enc(Md)
+    if mixed and small:
+        c["light"] = True   # oracle: only the presentations that involve the Taylor chain (exact sympy is slow)
     if analytic:
         f = rng.choice(["exp", "cos"])
         C = gen.rand_matrix(rng, dim, herm=herm, cplx=False, dyadic=False, density=1.0)
@@ -525,8 +528,11 @@ def compare_instance(inst, rng, N):
     ref = None
     failures = []
     count = 0
-    for fmt in ["dict"] + [f for f in FORMATS if f != "dict"]:
-        for desig in DESIGNATIONS:
+    combos = [(fmt, desig) for fmt in ["dict"] + [f for f in FORMATS if f != "dict"] for desig in DESIGNATIONS]
+    if inst.get("light"):
+        combos = [("dict", "indices"), ("mono", "indices"), ("expr", "indices"), ("expr", "eigid"), ("expr", "eigrot"), ("series", "eigrot")]
+    for fmt, desig in combos:
+        if True:
             state = rng.getstate()
             try:
                 out = run_bd(inst, fmt, desig, rng, N)
